@@ -2,13 +2,13 @@ INIT Init
 NEXT Next
 CONSTANTS
   Schemes = {"ill", "filt", "und", "pln", "srr"}
-  LibChoice = "repl"
+  LibChoice = "repl3"
   NLanes = 1
   NChunks = 1
-  MaxFiles = 2
+  MaxFiles = 1
   ReplIdx = {1, 2, 3, 4}
-  SlibIdx = {0, 1, 2}
-  Merges = {0, 1, 2}
+  SlibIdx = {0, 2}
+  Merges = {0, 2}
   SEs = {TRUE}
   Ignores = {FALSE}
   Verboses = {TRUE, FALSE}
